@@ -132,6 +132,7 @@ def lemke_howson(g, init_pivot=0, max_iter=10**6, capping=None,
 
     if not (0 <= init_pivot < total_num):
         raise ValueError(msg)
+    init_pivot = int(init_pivot)  # The jitted loop mixes it with intp values
 
     if capping is None:
         capping = max_iter
